@@ -86,6 +86,21 @@ def run(ctx):
         raise vlib.Infra("H1Conn mutant ChunkedTo10 not detected by the model")
     binp = ctx.build()
     run_seq(ctx, binp, q, key, "C02")
+    # "intact" when the origin fails in the middle of a body: FaultCases.tla body-phase faults - the client must not be
+    # handed a message that parses as complete (closed_after_head), on every route incl. the http.Handler variant
+    recs, g, d, _ = ctx.gen("FaultCases.tla", "GEN_FaultCases.cfg")
+    recs = [r for r in recs if r.get("c", r).get("f") in ("cut_body_cl", "cut_body_chunked", "rst_body", "rst_body_eof")]
+    if not recs:
+        raise vlib.Infra("FaultCases: no body-phase cases")
+    out = ctx.run_vh(binp, ["c12"], cases=recs, timeout=1500)
+    out, crashed = ctx.nocrash(out, "C02:crash")
+    for r in out:
+        ctx.evaluations += 1
+        ctx.nontrivial.add("cut:%s:%s:%s:%s" % (r["f"], r["k"], r.get("cut"), r.get("log")))
+        if not r["ok"] and ("neither the origin" in r["why"] or "mid-body" in r["why"]):
+            ctx.violation("C02:cut-body-presented-complete:%s:%s" % (r["f"], r["k"]), r)
+        else:
+            ctx.traces_ok += 1
 
 
 def replay(ctx, path):
